@@ -7,7 +7,9 @@ from .framework import rat
 PID = "C06"
 THEOREMS = ["OQuPyVerif.Props.C06.repr_class", "OQuPyVerif.Props.C06.unique_tables_eq",
             "OQuPyVerif.Props.C06.weight_congr_I", "OQuPyVerif.Props.C06.unique_eq_full",
-            "OQuPyVerif.Props.C06.inflEntry_keyed"]
+            "OQuPyVerif.Props.C06.inflEntry_keyed",
+            "OQuPyVerif.Props.C06.close_with_ones", "OQuPyVerif.Props.C06.closing_vectors",
+            "OQuPyVerif.Props.C06.reduced_legs_close_to_plain_sum"]
 TOL = 1e-8
 
 
@@ -63,6 +65,11 @@ def correspondence(res, tier, rng):
     for i in range(ncase):
         d = rng.choice([2, 2, 3])
         ev, pattern = dyadic_eigs(rng, d)
+        if i == 0:
+            # a repeated eigenvalue: several (difference, sum) pairs share one NORTH class
+            d, ev, pattern = 3, [1.0, 1.0, 2.0], "repeated"
+        elif i == 1:
+            d, ev, pattern = 2, [0.5, 0.5], "total"
         n = rng.randrange(2, 4 if d == 2 else 3)
         kind = "nondiag" if (i % 3 == 2 and len(set(ev)) == d) else "diag"
         coupling = np.diag(np.array(ev, dtype=complex))
@@ -94,8 +101,14 @@ def correspondence(res, tier, rng):
         tf = cases.make_tempo(case, unique=False)
         dyn_f = tf.compute(cases.end_time(case), progress_type="silent")
         tl += [line, tensors.tempo_line(tf, n)]
+        # PT-TEMPO with unique=True on the same problem (by C02's pt_dynamics_eq_tempo its dynamics
+        # are tempoState of the same tables): compared with the reduced-table model below
+        ptu = cases.make_pt(case, unique=True)
+        dyn_p = oqupy.compute_dynamics(case["system"], initial_state=case["rho0"], process_tensor=ptu,
+                                       start_time=case["start"], progress_type="silent")
         meta.append((case["desc"], [np.array(s).reshape(-1) for s in dyn_u.states],
-                     [np.array(s).reshape(-1) for s in dyn_f.states], len(set(north)), len(set(west))))
+                     [np.array(s).reshape(-1) for s in dyn_f.states], len(set(north)), len(set(west)),
+                     [np.array(s).reshape(-1) for s in dyn_p.states]))
         res.count("run:%s:d=%d" % (case["desc"]["coupling"], d))
     # (2b) mean-field TEMPO with several species: every species' backend must read ITS OWN bath's
     #      tables at ITS OWN representatives (exact)
@@ -130,7 +143,7 @@ def correspondence(res, tier, rng):
                                  {"eigenvalues": [ev_a, ev_b], "species": j, "dk": dk})
         res.count("mft-species:%s/%s" % (pa, pb))
     out = fw.run_driver("PathSum", tl)
-    for i, (desc, ru, rf, nn, nw) in enumerate(meta):
+    for i, (desc, ru, rf, nn, nw, rp) in enumerate(meta):
         L = desc["d"] ** 2
         mu = tensors.parse_states(out[2 * i], L)
         mf = tensors.parse_states(out[2 * i + 1], L)
@@ -141,6 +154,11 @@ def correspondence(res, tier, rng):
                  {"case": desc, "north_classes": nn, "west_classes": nw,
                   "Tempo(unique)_vs_model(uniqueTbl)": e1, "Tempo(full)_vs_model": e2,
                   "model_unique_vs_model_full": e3})
+        e4 = max(np.abs(a - b).max() for a, b in zip(rp, mu)) if len(rp) == len(mu) else float("inf")
+        res.case("pt:" + repr(desc), nn < L or nw < L, None)
+        if e4 > 10 * TOL:
+            res.disagree("PtTempo(unique=True) + compute_dynamics differs from the reduced-table "
+                         "model by %g" % e4, desc)
         if e1 > TOL:
             res.disagree("Tempo(unique=True) differs from the reduced-table model by %g" % e1, desc)
         if e2 > TOL:
@@ -157,6 +175,8 @@ def search(res):
     for i in range(16):
         d = rng.choice([2, 3, 3, 4])
         ev, pattern = dyadic_eigs(rng, d)
+        if i == 0:
+            d, ev, pattern = 3, [1.0, 1.0, 2.0], "repeated"
         case = cases.physical_case(rng, "quick", d=d, n=2 if d > 2 else 3)
         case["coupling"] = np.diag(np.array(ev, dtype=complex))
         states = {}
@@ -216,12 +236,12 @@ def run(tier, seed, replay):
     res.rule = ("(1) degeneracy maps of real Bath objects for dyadic eigenvalue multisets of dimension 2..5 "
                 "(generic, equispaced, repeated, symmetric, total, zeros) vs rowDegeneracy, exact; "
                 "(2) reduced influence tables vs full tables at class representatives, exact; "
-                "(3) real Tempo(unique=True/False) vs tempoState with uniqueTbl / full tables (1e-8) and "
+                "(3) real Tempo(unique=True/False) and PtTempo(unique=True)+compute_dynamics vs tempoState with uniqueTbl / full tables (1e-8) and "
                 "model-unique vs model-full (1e-12).  Non-trivial = at least one class merges indices.")
     res.assumptions = ["the code rounds keys to 12 decimals before np.unique; the model compares keys "
                        "exactly (inputs are dyadic so both agree)"]
     res.not_shown = ["mean-field TEMPO with unique=True uses the same backend step; no separate theorem"]
-    fw.standard_pipeline(res, [], THEOREMS)
+    fw.standard_pipeline(res, ["UniqueSums"], THEOREMS)
     try:
         correspondence(res, tier, rng)
     except fw.Infra as e:
